@@ -62,6 +62,15 @@ type Seg struct {
 	SW      bool
 	UseSeg  bool // encode through MediaSegment (only without lazy data and Between boxes)
 	Dec     int  // 0 DecodeFile(init+seg) 1 DecodeFileSR(init+seg) 2 DecodeFile(seg) 3 DecodeFileSR(seg)
+	Bad     bool // some Sample.Size differs from its data length (the decode stage is then not compared)
+}
+
+// mixSeed spreads seeds over the 64-bit space (hx.NewRng streams of nearby seeds are shifted copies of each other)
+func mixSeed(seed, salt uint64) uint64 {
+	z := seed*0x9E3779B97F4A7C15 + salt
+	z = (z ^ (z >> 30)) * 0xBF58476D1CE4E5B9
+	z = (z ^ (z >> 27)) * 0x94D049BB133111EB
+	return z ^ (z >> 31)
 }
 
 func pickU(r *hx.Rng, xs ...uint32) uint32 { return xs[r.Intn(len(xs))] }
@@ -249,7 +258,7 @@ func encodeFrag(f *mp4.Fragment, opt, sw bool) (b []byte, class byte) {
 	var err error
 	p := hx.Try(func() {
 		if sw {
-			w := bits.NewFixedSliceWriter(int(f.Size()) + 64)
+			w := bits.NewFixedSliceWriter(int(f.Size()) + int(f.Mdat.DataLength()) + len(f.Mdat.Data) + 64)
 			err = f.EncodeSW(w)
 			b = append([]byte{}, w.Bytes()...)
 		} else {
@@ -532,6 +541,7 @@ func genSeg(r *hx.Rng, wild bool) *Seg {
 				d := genData(int(s.S))
 				if wild && r.Intn(40) == 0 {
 					s.S = sizePool[r.Intn(len(sizePool))] // size field not matching the data
+					sg.Bad = true
 				}
 				op.Ss = append(op.Ss, s)
 				data = append(data, d...)
@@ -601,11 +611,16 @@ func runSeg(sg *Seg) *segRun {
 	sr.initLen = base
 	for _, r := range sr.runs {
 		if r.panicked() {
-			sr.encCls = append(sr.encCls, 'x')
 			return sr
 		}
 	}
-	if sg.UseSeg {
+	useSeg := sg.UseSeg
+	for _, r := range sr.runs {
+		if len(r.modes) > 1 || r.modes['l'] { // mixed or lazy data modes: Size() is not the number of bytes written
+			useSeg = false
+		}
+	}
+	if useSeg {
 		var ms *mp4.MediaSegment
 		if sg.Styp {
 			ms = mp4.NewMediaSegment()
@@ -853,7 +868,7 @@ func shrink(sg *Seg, f *failure) *Seg {
 }
 
 func cmdSearch(seed uint64, n int) {
-	r := hx.NewRng(seed ^ 0x5ea7c4)
+	r := hx.NewRng(mixSeed(seed, 0x5ea7c4))
 	evals := 0
 	seen := map[string]bool{}
 	for i := 0; i < n; i++ {
@@ -1083,11 +1098,15 @@ func emitH(id string, sg *Seg, sr *segRun, i int, stats map[string]int) {
 			clean = false
 		}
 	}
+	encStage := !r.panicked() && i < len(sr.encCls) && !(sg.UseSeg && sr.encCls[i] != 'o')
 	// decode stage is compared only when every fragment of the segment got encoded and the file decoded
-	dec := clean && len(sr.encCls) == len(sr.runs) && sr.encCls[i] == 'o' && sr.file != nil && sr.decCls == 'o' &&
+	dec := clean && encStage && !sg.Bad && len(sr.encCls) == len(sr.runs) && sr.encCls[i] == 'o' && sr.file != nil && sr.decCls == 'o' &&
 		len(sr.decodedFrags()) == len(sg.Frags)
 	for _, rr := range sr.runs {
 		if len(rr.modes) > 1 {
+			dec = false
+		}
+		if rr.modes['l'] && rr.f.Mdat.GetLazyDataSize() != uint64(len(rr.lazy)) {
 			dec = false
 		}
 	}
@@ -1113,8 +1132,8 @@ func emitH(id string, sg *Seg, sr *segRun, i int, stats map[string]int) {
 		}
 		return "0"
 	}
-	cfg := fmt.Sprintf("m=%s;t=%s;o=%s;p0=%s;pre=%s;mx=%s;tx=%s;trex=%s;dec=%s", b2s(fs.Multi), hexCsv(tracks), b2s(sg.Opt),
-		hx.HexU(pos), hx.HexU(r.pre), hx.HexU(sumSizes(fs.MoofX)), hexCsv(trafx), strings.Join(trexs, ","), b2s(dec))
+	cfg := fmt.Sprintf("m=%s;t=%s;o=%s;p0=%s;pre=%s;mx=%s;tx=%s;post=%s;trex=%s;enc=%s;dec=%s", b2s(fs.Multi), hexCsv(tracks), b2s(sg.Opt),
+		hx.HexU(pos), hx.HexU(r.pre), hx.HexU(sumSizes(fs.MoofX)), hexCsv(trafx), hx.HexU(sumSizes(fs.Post)), strings.Join(trexs, ","), b2s(encStage), b2s(dec))
 	ops := make([]string, len(fs.Ops))
 	for k := range fs.Ops {
 		ops[k] = opString(&fs.Ops[k])
@@ -1128,8 +1147,8 @@ func emitH(id string, sg *Seg, sr *segRun, i int, stats map[string]int) {
 	if !r.panicked() {
 		m := f.Mdat
 		sb.WriteString("|st=" + hx.HexU(uint64(mp4.VerifC05NextTrunNr(f))) + "/" + hx.HexU(uint64(len(m.Data))) + "/" + hx.HexU(m.GetLazyDataSize()) + "/" + hx.HexU(uint64(len(m.DataParts))))
-		if i < len(sr.encCls) {
-			sb.WriteString(trafState(f))
+		sb.WriteString(trafState(f))
+		if encStage {
 			c := sr.encCls[i]
 			sb.WriteString("|enc=" + string(c))
 			if c == 'o' {
@@ -1192,8 +1211,8 @@ func emitH(id string, sg *Seg, sr *segRun, i int, stats map[string]int) {
 
 func cmdCorr(seed uint64, n int) {
 	stats := map[string]int{}
-	cmdCorrO(hx.NewRng(seed^0xc05), n, stats)
-	r := hx.NewRng(seed ^ 0xc05c05)
+	cmdCorrO(hx.NewRng(mixSeed(seed, 0xc05)), n, stats)
+	r := hx.NewRng(mixSeed(seed, 0xc05c05))
 	for i := 0; i < n; i++ {
 		sg := genSeg(r, i%3 == 0)
 		sr := runSeg(sg)
